@@ -722,7 +722,11 @@ func (e *crashEnv) violate(oracle, msg string, ic *crImgCase, pristine *stor.Sto
 		// session.recover decodes the surviving first chunk of the torn record into its re-used record: the
 		// scalars (journal number, sequence number) stick although the record is skipped
 		sig = "session.recover:torn-manifest-record-keeps-scalars:" + oracle
-		msg = fmt.Sprintf("manifest %s cut at byte %d inside an unsynced record that straddles a 32 KiB block boundary: %s", last.Manifest, last.ManifestCut, msg)
+		cut := last.ManifestCut
+		if cut < 0 {
+			cut = -cut
+		}
+		msg = fmt.Sprintf("manifest %s ends at byte %d inside an unsynced record that straddles a 32 KiB block boundary (its first chunk is complete): %s", last.Manifest, cut, msg)
 	}
 	e.c.Res.Violate(sig, fmt.Sprintf("config %s, crash before storage op #%d (%s), depth %d: %s", e.spec.Config, last.OpSeq, last.Op, len(ic.path), msg), e.replay(ic, pristine, nil))
 	e.c.Res.Count("outcome", "violation:"+oracle)
@@ -1131,19 +1135,60 @@ func (cr *crashRun) bigManifestPoint(s *stor.Stor, op stor.Op, sh crShadow, ir, 
 			}
 			pt.ManifestCut, pt.Manifest = cut, crFdName(mfd)
 			img = sh.takeImageCut(s, seed, mfd, cut)
-			b := (cut / crJournalBlock) * crJournalBlock
-			torn = cut < length && synced < b && b < cut
+			if ib, ok := img.FileBytes(mfd); ok {
+				torn = crEndsInsideMultiChunkRecord(ib)
+			}
 			if torn {
-				c.Res.Count("bigmanifest", "images-cut-after-boundary-inside-straddling-record")
+				c.Res.Count("bigmanifest", "images-ending-after-the-first-chunk-of-a-straddling-record")
 			} else {
 				c.Res.Count("bigmanifest", "images-cut-elsewhere-in-tail")
 			}
 			c.Res.Count("tail_policy", "manifest/cut(forced)")
 		} else {
 			img = sh.takeImage(s, seed)
+			if ib, ok2 := img.FileBytes(mfd); ok && ok2 {
+				torn = crEndsInsideMultiChunkRecord(ib)
+				pt.Manifest = crFdName(mfd)
+				pt.ManifestCut = -len(ib) // not forced: length the image's tail policy left (negative: informational)
+			}
 		}
 		ic := &crImgCase{img: img, issued: issued, acked: acked, path: []crPoint{pt}, tornStraddle: torn}
 		e.check(ic, cr2)
 		atomic.AddInt64(&e.progress, 1)
 	}
+}
+
+// crEndsInsideMultiChunkRecord parses the journal framing of a manifest image (headers only) and says
+// whether the data ends after at least one complete first/middle chunk of a record whose last chunk is
+// missing, cut or unreadable - the shape that makes session.recover decode a partial record.
+func crEndsInsideMultiChunkRecord(data []byte) bool {
+	open := false
+	for i := 0; i < len(data); {
+		left := crJournalBlock - i%crJournalBlock
+		if left < 7 {
+			i += left
+			continue
+		}
+		if i+7 > len(data) {
+			return open
+		}
+		n := int(data[i+4]) | int(data[i+5])<<8
+		t := data[i+6]
+		if t == 0 && n == 0 { // zero padding / preallocated zeros
+			return open
+		}
+		if t < 1 || t > 4 || 7+n > left || i+7+n > len(data) {
+			return open
+		}
+		switch t {
+		case 1:
+			open = false
+		case 2:
+			open = true
+		case 4:
+			open = false
+		}
+		i += 7 + n
+	}
+	return open
 }
